@@ -70,10 +70,10 @@ def run(ctx):
     r = core.tlc(ctx, "gen-ex", "Watchers", None, cfgtext=CFG % ("Spec", 2, 1, "Emit"), workers=1, timeout=1800)
     if r["rc"] != 0:
         raise Undecided("schedule enumeration failed:\n" + r["out"][-2000:])
-    ctx.tlc_stats.append(dict(name="gen-exhaustive", module="Watchers", cfg="every schedule of 2 deliveries (108 events) and 1 swap",
+    ctx.tlc_stats.append(dict(name="gen-exhaustive", module="Watchers", cfg="every schedule of 2 deliveries (117 events) and 1 swap",
                               generated=r["generated"], distinct=r["distinct"], depth=r["depth"], wall_s=round(r["wall"], 1), violated=None))
     scheds = schedules(ctx, r["out"])
-    if len(scheds) < 30000:
+    if len(scheds) < 36000:
         raise Undecided("TLC enumerated only %d schedules" % len(scheds))
     for s in range(1 if q else 6):
         r = core.tlc(ctx, "gen-sim%d" % s, "Watchers", None, cfgtext=CFG % ("Spec", 8, 4, "Emit"), workers=1, timeout=1800,
@@ -131,7 +131,7 @@ def run(ctx):
     sample = extract(seqout, "s0")
     core.write_evidence(ctx, sample[:12], extra=dict(sequential_schedules=len(scheds), concurrent_executions=len(good) * iters,
                         concurrent_processes=procs, race_detector=True, batches_in_first_concurrent_process=nbatch, model_drift=drift,
-                        bounds="event vocabulary of 108 events (ConfigMap global/tcp/other x op x 3 data versions; Ingress and IngressClass x op x class "
+                        bounds="event vocabulary of 117 events (ConfigMap global / tcp / other of the controller namespace / foreign x op x 3 data versions; Ingress and IngressClass x op x class "
                                "validity before/after; Service/Secret/Endpoints x 2 names x op; Pod x op x terminating; Gateway / HTTPRoute / TCPRoute x op; GatewayClass x op x class validity before/after); exhaustive 2 deliveries + 1 swap, "
                                "simulated 8 deliveries + 4 swaps; concurrent: 3-8 informer goroutines x 60-180 uniquely named events each while another "
                                "goroutine swaps continuously and delivers the ConfigMap updates, GOMAXPROCS 2..16, built with -race"),
